@@ -96,6 +96,14 @@ func (f *Frame) evalCall(st *State, call *ast.CallExpr) []Val {
 		f.c.dropped[key] = true
 		return f.havocResults(st, call)
 	}
+	if f.forcedInline(fn) {
+		if src := f.c.w.funcs[fn.Origin()]; src != nil {
+			if rs, ok := f.tryInline(st, call, fn, src, recvExpr); ok {
+				return rs
+			}
+			f.unsupported(call, "callee %s listed under `inline` could not be inlined", fn.Name())
+		}
+	}
 	if ct := f.c.specs.Contracts[key]; ct != nil {
 		if ct.Pure && len(ct.Ensures) == 0 && len(ct.Requires) == 0 {
 			return f.callPure(st, call, fn, recvExpr)
@@ -108,6 +116,19 @@ func (f *Frame) evalCall(st *State, call *ast.CallExpr) []Val {
 		}
 	}
 	return f.callUnknown(st, call, fn, "")
+}
+
+// forcedInline: the contract of the function under verification lists this callee under `inline`.
+func (f *Frame) forcedInline(fn *types.Func) bool {
+	if f.c.contract == nil {
+		return false
+	}
+	for _, n := range f.c.contract.Inline {
+		if n == fn.Name() {
+			return true
+		}
+	}
+	return false
 }
 
 func isLoggingCall(key string) bool {
@@ -351,7 +372,9 @@ func (f *Frame) evalBuiltin(st *State, call *ast.CallExpr, name string) []Val {
 			nc := f.c.fresh("cap", "Int")
 			st.assume(fmt.Sprintf("(>= %s (+ (%s.len %s) 1))", nc, so, cur.T))
 			st.assume(fmt.Sprintf("(< (+ (%s.off %s) %s) 4611686018427387904)", so, cur.T, nc))
-			cur = f.name("app", Val{T: fmt.Sprintf("(mk_%s (store (%s.arr %s) (+ (%s.off %s) (%s.len %s)) %s) (%s.off %s) (+ (%s.len %s) 1) %s)", so, so, cur.T, so, cur.T, so, cur.T, v.T, so, cur.T, so, cur.T, nc), Ty: t})
+			// appending to the nil slice (offset -1) yields a non-nil slice at offset 0
+			off := f.name("off", Val{T: fmt.Sprintf("(ite (< (%s.off %s) 0) 0 (%s.off %s))", so, cur.T, so, cur.T), Ty: types.Typ[types.Int]}).T
+			cur = f.name("app", Val{T: fmt.Sprintf("(mk_%s (store (%s.arr %s) (+ %s (%s.len %s)) %s) %s (+ (%s.len %s) 1) %s)", so, so, cur.T, off, so, cur.T, v.T, off, so, cur.T, nc), Ty: t})
 		}
 		return []Val{cur}
 	case "make":
@@ -694,6 +717,16 @@ func (f *Frame) callByContract(st *State, call *ast.CallExpr, fn *types.Func, ct
 		}
 		switch a.val.Ty.Underlying().(type) {
 		case *types.Pointer, *types.Slice, *types.Map:
+			if paths := modPaths(ct)[a.name]; len(paths) > 0 && !ct.ModifiesAll {
+				if _, isPtr := a.val.Ty.Underlying().(*types.Pointer); isPtr {
+					// only the listed field paths of the pointee change
+					func() {
+						defer f.specGuard(call, "modifies clause of "+ct.Name)
+						post.names[a.name] = f.havocPaths(st, a.val, paths)
+					}()
+					continue
+				}
+			}
 			nv := f.havoc(st, "post_"+a.name, a.val.Ty)
 			if _, isPtr := a.val.Ty.Underlying().(*types.Pointer); isPtr && !isBigInt(a.val.Ty) {
 				so := f.c.sorts.SortOf(a.val.Ty)
